@@ -18,6 +18,13 @@ case kinds
          Oracle: when the case satisfies the property's hypotheses - every message well typed and declaring
          exactly its descriptors (generator flag 'ok'), events in stream order (decided by the extracted spec,
          stream_order) - against Spec/FdSpec.v [expected].
+  hs   : the same from the START of the connection: the REAL line phase of BasicDBusProtocol.dataReceived with a
+         scripted authenticator (harness/c04.py's ScriptAuth / FakeTransport, server side with the NUL byte and
+         client side), the handshake lines followed by the messages in one stream, reads cut anywhere (inside the
+         handshake, between CR and LF of the last line, message bytes pipelined in the read that completes
+         authentication), descriptors arriving before / in the same read as / after the line that completes
+         authentication.  Correspondence: Model/FdFraming.v run_start.  Oracle (hypotheses as for recv, decided
+         by stream_order_hs): Spec/FdSpec.v expected_hs plus the handshake events of C04's stream semantics.
   raw  : the same with literal bytes (truncated, corrupted, concatenated garbage): correspondence only.
   send : a method call whose body has UNIX_FD arguments anywhere outside variants (arrays, structs, dict
          values), sent through MethodCallMessage(..., oobFDs=[]) + sendMessage or through
@@ -33,7 +40,7 @@ from harness import marshal_common as mc
 
 ASSUMPTIONS = [
     'descriptors are modelled as opaque values; the harness uses distinct plain integers that are never opened or closed',
-    'the connection is put in authenticated state directly (_authenticated = True, _receivedFDs = []); the handshake is C04/C07',
+    'recv cases put the connection in authenticated state directly (_authenticated = True, _receivedFDs = []); hs cases run makeConnection and the real line phase of dataReceived with a scripted authenticator (harness/c04.py), what the authenticator writes is not compared (C06/C07)',
     'an exception escaping dataReceived is treated as the connection being dropped: no further event is delivered (Twisted reactor contract)',
     'the arrival discipline (descriptors in sending order, each delivered by fileDescriptorReceived before the dataReceived carrying the final byte of its message) is the hypothesis named in the property; how the kernel / Twisted attach descriptors to bytes (one per write) is below the observation point',
     'the four message callbacks are passive observers (they do not raise and do not touch the queue)',
@@ -329,8 +336,84 @@ def gen_cases(ctx):
         n = rng.choice([1, 2, 3])
         msgs = [gen_msg(rng, rng.choice([0, 1, 2]), j, 300 + j) for j in range(n)]
         yield {'kind': 'rawgen', 'label': 'raw', 'msgs': msgs, 'nrandom': ctx.n(3, 6)}
+    for c in gen_hs_cases(ctx):
+        yield c
     for i in range(ctx.n(700, 20000)):
         yield gen_send(rng, i)
+
+
+def gen_hs_cases(ctx):
+    from harness import c04
+    rng = ctx.rng
+    g = c04.Gen(rng)
+    # systematic: every consistent interleaving over the cut candidates of the handshake and the messages
+    for client in (0, 1):
+        for sh in ([1], [2], [1, 1], [0, 2], [2, 1]):
+            lines, auth = g.handshake(client, short=True)
+            msgs = [gen_msg(rng, k, j, 400 + j) for j, k in enumerate(sh)]
+            yield {'kind': 'hsgen', 'label': 'hs' + ''.join(map(str, sh)), 'client': client, 'auth': auth,
+                   'lines': lines, 'msgs': msgs, 'plan': 'all', 'cap': ctx.n(150, 3000)}
+    for i in range(ctx.n(120, 3000)):
+        client = rng.choice([0, 1])
+        lines, auth = g.handshake(client, short=rng.random() < 0.5)
+        n = rng.choice([1, 2, 2, 3])
+        msgs = [gen_msg(rng, rng.choice([0, 1, 1, 2, 3]), j, 500 + j) for j in range(n)]
+        yield {'kind': 'hsgen', 'label': 'hsrnd', 'client': client, 'auth': auth, 'lines': lines, 'msgs': msgs,
+               'plan': 'random', 'nrandom': ctx.n(6, 12)}
+    # handshakes that fail or never complete, with descriptors queued: correspondence only
+    for i in range(ctx.n(30, 600)):
+        client = rng.choice([0, 1])
+        lines, auth = g.handshake(client, short=True)
+        bad = rng.choice([2, 3, 0])
+        auth = [1, [0] * (len(lines) - 1) + [bad]]
+        msgs = [gen_msg(rng, rng.choice([1, 2]), 0, 600)]
+        yield {'kind': 'hsgen', 'label': 'hsfail', 'client': client, 'auth': auth, 'lines': lines,
+               'msgs': [dict(m, ok=False) for m in msgs], 'plan': 'random', 'nrandom': ctx.n(3, 6)}
+
+
+def hs_bytes(client, lines):
+    return (b'' if client else b'\0') + b''.join(bytes(l) + b'\r\n' for l in lines)
+
+
+def expand_hs(ctx, c, wires):
+    rng = ctx.rng
+    hs = hs_bytes(c['client'], c['lines'])
+    lens = [len(hs)] + [len(w) for w in wires]
+    nfds = [0] + [len(m['fds']) for m in c['msgs']]
+    total = sum(lens)
+    out = []
+
+    def mk(ev):
+        return {'kind': 'hs', 'label': c['label'], 'client': c['client'], 'auth': c['auth'], 'lines': c['lines'],
+                'msgs': c['msgs'], 'events': ev}
+
+    if c['plan'] == 'all':
+        evs, complete = all_plans_small(lens, nfds, ctx, c['cap'])
+        for ev in evs:
+            out.append(mk(ev))
+        for ev in evs[:: max(1, len(evs) // 10)]:
+            if len(ev) > 1:
+                out.append(mk(ev[:rng.randrange(1, len(ev))]))
+        return out, complete
+    for _ in range(c['nrandom']):
+        ncut = rng.choice([0, 1, 2, 3, 5, 8])
+        cuts = [rng.randrange(1, total) for _ in range(ncut)] if total > 1 else []
+        r = rng.random()
+        if r < 0.5:
+            # the read that completes the handshake also carries message bytes
+            cuts = [x for x in cuts if not (lens[0] - 4 <= x <= lens[0] + 8)]
+        elif r < 0.7:
+            cuts.append(lens[0])
+        elif r < 0.8:
+            cuts.append(lens[0] - 1)                    # between CR and LF of the last line
+        reads = cut_reads(total, cuts)
+        if rng.random() < 0.15 and len(reads) > 1:
+            reads.insert(rng.randrange(1, len(reads) + 1), 0)     # an empty read, never the first
+        ev = next(plans_for(lens, nfds, reads, limit=1, rng=rng))
+        if rng.random() < 0.2 and len(ev) > 1:
+            ev = ev[:rng.randrange(1, len(ev))]
+        out.append(mk(ev))
+    return out, False
 
 
 def gen_send(rng, i):
@@ -517,6 +600,80 @@ def run_impl_recv(P, events):
     return [outs, [mc.pv_form(v) for v in p._receivedFDs], None if (dropped or closed) else bytes(p._buffer)]
 
 
+class HsImpl:
+    def __init__(self):
+        from harness import c04
+        self.base = c04.Impl()
+        protocol = self.base.protocol
+
+        class P(protocol.BasicDBusProtocol):
+            def connectionAuthenticated(self):
+                self.log.append([1])
+
+            def methodCallReceived(self, m):
+                self.log.append([9] + obs_parsed(m, 1))
+
+            def methodReturnReceived(self, m):
+                self.log.append([9] + obs_parsed(m, 2))
+
+            def errorReceived(self, m):
+                self.log.append([9] + obs_parsed(m, 3))
+
+            def signalReceived(self, m):
+                self.log.append([9] + obs_parsed(m, 4))
+
+        self.P = P
+
+    def run(self, client, auth, events):
+        b = self.base
+        log = []
+        p = self.P()
+        p.log = log
+        p._client = bool(client)
+        p.factory = b.Factory
+        a = b.ScriptAuth(auth, log)
+        p.authenticator = lambda *args: a
+        t = b.FakeTransport(log)
+        p.makeConnection(t)
+        dropped = False
+        for e in events:
+            if t.disconnecting:
+                break
+            if e[0] == 0:
+                p.fileDescriptorReceived(e[1])
+            else:
+                try:
+                    p.dataReceived(e[1])
+                except Exception as x:
+                    dropped = True
+                    log.append([4] if type(x).__name__ == 'ScriptCrash' else [-1])
+                    break
+        outs = []
+        for x in log:
+            if x[0] == 9:
+                outs.append([1] + x[1:])
+            elif x[0] == -1:
+                outs.append([0])
+            else:
+                outs.append([2, x])
+        return [outs, [mc.pv_form(v) for v in p._receivedFDs],
+                None if (dropped or t.disconnecting) else bytes(p._buffer)]
+
+
+def hs_events(case, wires):
+    stream = hs_bytes(case['client'], case['lines']) + b''.join(wires)
+    fds = [v for m in case['msgs'] for v in m['fds']]
+    out, pos, j = [], 0, 0
+    for e in case['events']:
+        if e[0] == 'fd':
+            out.append([0, fds[j] if j < len(fds) else 9000 + j])
+            j += 1
+        else:
+            out.append([1, stream[pos:pos + e[1]]])
+            pos += e[1]
+    return out
+
+
 def model_result(o):
     outs = []
     for x in o[0]:
@@ -525,6 +682,8 @@ def model_result(o):
             for code, v in x[5]:
                 attrs[code] = v
             outs.append([1, x[1], x[2], x[3], x[4], attrs, x[6][0] if x[6] else None])
+        elif x[0] == 2:
+            outs.append([2, list(x[1])] if len(x) > 1 else [2])
         else:
             outs.append([x[0]])
     return [outs, o[1], o[2][0] if o[2] else None]
@@ -615,7 +774,7 @@ def evaluate(ctx, cases, res):
         ex[k] = ex.get(k, 0) + n
 
     # ---- phase 1: wire bytes of every message sequence (specification encoder) ----------------
-    need = [c for c in cases if c['kind'] in ('recv', 'rawgen')]
+    need = [c for c in cases if c['kind'] in ('recv', 'rawgen', 'hsgen', 'hs')]
     outs = common.run_model(['(20 3 %s)' % common.dump([msg_sexp(m) for m in c['msgs']]) for c in need])
     wires_of = {}
     for c, o in zip(need, outs):
@@ -625,7 +784,17 @@ def evaluate(ctx, cases, res):
     concrete = []
     all_complete = True
     for c in cases:
-        if c['kind'] in ('recv', 'rawgen') and 'events' not in c:
+        if c['kind'] == 'hsgen':
+            sub, complete = expand_hs(ctx, c, wires_of[id(c)])
+            if c.get('plan') == 'all':
+                (ex.setdefault('all_interleavings_enumerated_for', []) if complete
+                 else ex.setdefault('interleavings_sampled_for', [])).append(
+                    '%s-%s' % (c['label'], 'client' if c['client'] else 'server'))
+            for s_ in sub:
+                concrete.append((s_, wires_of[id(c)]))
+        elif c['kind'] == 'hs':
+            concrete.append((c, wires_of[id(c)]))
+        elif c['kind'] in ('recv', 'rawgen') and 'events' not in c:
             sub, complete = expand(ctx, c, wires_of[id(c)])
             if c.get('plan') == 'all':
                 if complete:
@@ -687,6 +856,61 @@ def evaluate(ctx, cases, res):
             bump('recv_outside_hypotheses')
         if i % 97 == 0:
             res.sample({'label': c['label'], 'fds': [m['fds'] for m in c['msgs']], 'events': c['events']})
+
+    # ---- receiving from the start of the connection (real handshake phase) --------------------------
+    hsc = [(c, w) for c, w in concrete if c['kind'] == 'hs']
+    if hsc:
+        himpl = HsImpl()
+        maxl = himpl.base.maxl
+        from harness import c04
+        hevs = [hs_events(c, w) for c, w in hsc]
+        mouts = common.run_model(['(20 6 %d %d %s %s)' % (c['client'], maxl, common.dump(c04.auth_dump(c['auth'])),
+                                                        common.dump(events_sexp(e)))
+                                  for (c, w), e in zip(hsc, hevs)])
+        sidx = [i for i, (c, w) in enumerate(hsc) if all(m.get('ok') for m in c['msgs'])]
+        souts = dict(zip(sidx, common.run_model(
+            ['(20 7 %d %d %s %s %s %s)' % (hsc[i][0]['client'], maxl, common.dump(c04.auth_dump(hsc[i][0]['auth'])),
+                                           common.dump(hs_bytes(hsc[i][0]['client'], hsc[i][0]['lines'])),
+                                           common.dump([msg_sexp(m) for m in hsc[i][0]['msgs']]),
+                                           common.dump(events_sexp(hevs[i]))) for i in sidx])))
+        for i, (c, w) in enumerate(hsc):
+            impl = himpl.run(c['client'], c['auth'], hevs[i])
+            cur = model_result(mouts[i][0])
+            nhs = len(hs_bytes(c['client'], c['lines']))
+            pos, early = 0, False
+            for e in hevs[i]:
+                if e[0] == 0 and pos < nhs:
+                    early = True
+                elif e[0] == 1:
+                    pos += len(e[1])
+            res.count(c, nontrivial=early and any(x[0] == 1 for x in impl[0]))
+            bump('hs_cases')
+            if early:
+                bump('hs_descriptor_before_authentication')
+            if impl != cur:
+                res.disagree(c, impl, cur)
+                bump('hs_disagree')
+            if i not in souts:
+                bump('hs_outside_hypotheses')
+                continue
+            ok, (seen, q), hsev = souts[i]
+            if not ok:
+                raise RuntimeError('generator produced a handshake event plan outside stream order: %r' % (c,))
+            bump('hs_oracle_cases')
+            want = [[[2, list(e)] for e in hsev] + spec_result([seen, q, b''])[0], q]
+            got = [impl[0], impl[1]]
+            if got != want:
+                why, sig = classify_recv([[x for x in got[0] if x[0] != 2], got[1], b''],
+                                         [[x for x in want[0] if x[0] != 2], want[1], b''])
+                if [x for x in got[0] if x[0] == 2] != [x for x in want[0] if x[0] == 2]:
+                    why, sig = 'handshake events differ from the stream semantics', 'recv:handshake-events'
+                elif early and sig in ('recv:descriptor-argument-not-own', 'recv:queue'):
+                    why = 'a descriptor that arrived before authentication completed was lost: ' + why
+                    sig = 'recv:descriptor-lost-at-authentication'
+                res.violate(c, why, sig)
+            if i % 53 == 0:
+                res.sample({'label': c['label'], 'client': c['client'], 'lines': c['lines'],
+                            'fds': [m['fds'] for m in c['msgs']], 'events': c['events']})
 
     # ---- sending ---------------------------------------------------------------------------------
     send = [c for c, _ in concrete if c['kind'] == 'send']
